@@ -36,7 +36,11 @@ def task_ics(uid, occ, maxsim=0, owner=None, dur=None, method='PUBLISH', extra=(
         if occ: L.append('RDATE;VALUE=DATE:' + ','.join(days(t) for t in occ))
     elif past_rule and len(occ) == 1 and 0 <= occ[0] < 86400:
         # the same single occurrence as the last one of a daily rule that started in 1997
-        L = ['BEGIN:VEVENT', 'UID:' + uid, 'SUMMARY:echo ' + uid, 'DTSTART:19970101T' + secs(occ[0])[9:], 'RRULE:FREQ=DAILY;UNTIL=' + secs(occ[0])]
+        if past_rule == 'M':
+            # ... or of a rule that has come round every minute since 2018 (more than six million occurrences to be passed over)
+            L = ['BEGIN:VEVENT', 'UID:' + uid, 'SUMMARY:echo ' + uid, 'DTSTART:20180101T0000%02dZ' % (occ[0] % 60), 'RRULE:FREQ=MINUTELY;UNTIL=' + secs(occ[0])]
+        else:
+            L = ['BEGIN:VEVENT', 'UID:' + uid, 'SUMMARY:echo ' + uid, 'DTSTART:19970101T' + secs(occ[0])[9:], 'RRULE:FREQ=DAILY;UNTIL=' + secs(occ[0])]
     else:
         L = ['BEGIN:VEVENT', 'UID:' + uid, 'SUMMARY:echo ' + uid, 'DTSTART:' + secs(min(occ) if occ else 0)]
         if occ: L.append('RDATE:' + ','.join(secs(t) for t in occ))
@@ -155,7 +159,7 @@ def random_script(rnd, ntasks=3, peers=(1000,), horizon=14, maxsims=(0, 0, 1, 2)
         occ = sorted(rnd.choice(pool) for _ in range(n))
         if rnd.random() < 0.7: occ = sorted(set(occ))
         it = {'kind': 'add', 'uid': uid, 'occ': occ, 'maxsim': rnd.choice(maxsims), 'peer': rnd.choice(peers)}
-        if len(occ) == 1 and rnd.random() < 0.35: it['past_rule'] = True     # written as a rule that has been going since 1997 and ends with this occurrence
+        if len(occ) == 1 and rnd.random() < 0.35: it['past_rule'] = rnd.choice([True, True, 'M'])     # written as a rule that has been going since 1997 and ends with this occurrence
         metas[len(cmds)] = [it]
         cmds.append(areq(rnd, it['peer'], request([it])))
     for u in uids:
